@@ -663,17 +663,23 @@ func (t *Collection) VisitItemsAscendEx(target []byte, withValue bool,
 	defer t.rootDecRef(rnl)
 	verifYield(1)
 
-	var prevVisitItem *Item
+	// The previous key is kept as a copy: the visit holds no reference on an
+	// item once its node has been left (visitNodes evicts it and releases the
+	// node's reference), so with ItemAlloc/ItemDecRef callbacks that recycle
+	// items the item and its key buffer may already belong to someone else.
+	var prevVisitKey []byte
+	havePrev := false
 	var errCheckedVisitor error
 
 	checkedVisitor := func(i *Item, depth uint64) bool {
-		if prevVisitItem != nil && t.compare(prevVisitItem.Key, i.Key) > 0 {
+		if havePrev && t.compare(prevVisitKey, i.Key) > 0 {
 			errCheckedVisitor = fmt.Errorf("corrupted / out-of-order index"+
 				", key: %s vs %s, coll: %p, collName: %s, store: %p, storeFile: %v",
-				string(prevVisitItem.Key), string(i.Key), t, t.name, t.store, t.store.file)
+				string(prevVisitKey), string(i.Key), t, t.name, t.store, t.store.file)
 			return false
 		}
-		prevVisitItem = i
+		prevVisitKey = append(prevVisitKey[:0], i.Key...)
+		havePrev = true
 		return visitor(i, depth)
 	}
 
